@@ -61,7 +61,11 @@ class P:
         short += list(G.strings_upto(G.ALPHA1, 3))
         cases = [G.pcase(m) for m in muts + short]
         from props import c02
-        return c02.token_parts(random.Random(seed + 7), tier, 2000 if tier == "quick" else 30000) + [{"name": "mutants-and-short-strings", "harness": "parse", "driver": None, "cases": cases, "impl_ok": located_ok,
+        trunc = [G.pcase(t) for t in G.heredoc_truncations()]
+        tpart = {"name": "here-document-truncations", "harness": "parse", "driver": None, "cases": trunc,
+                 "impl_ok": lambda c, o: o.startswith("ok ") and fields(o)["E"] != "nil" and located_ok(c, o),
+                 "nontrivial": lambda c: True, "distribution": {"cases": len(trunc)}}
+        return [tpart] + c02.token_parts(random.Random(seed + 7), tier, 2000 if tier == "quick" else 30000) + [{"name": "mutants-and-short-strings", "harness": "parse", "driver": None, "cases": cases, "impl_ok": located_ok,
                  "nontrivial": lambda c: len(unhx(c.split("\t")[0]).split()) >= 2,
                  "distribution": {"mutants": len(muts), "short": len(short)}}]
 
